@@ -12,7 +12,9 @@ def run_one(nid, checks):
     d = tempfile.mkdtemp(prefix='pane-neu-', dir='/tmp')
     out = {}
     try:
-        subprocess.run(f"git -C /repo archive HEAD | tar -x -C {d}", shell=True, check=True)
+        meta = json.load(open(f"{nd}/meta.json"))
+        base = meta['base_commit'] if meta.get('pinned_base') else 'HEAD'
+        subprocess.run(f"git -C /repo archive {base} | tar -x -C {d}", shell=True, check=True)
         p = subprocess.run(f"patch -p1 -s < {nd}/patch.diff", shell=True, cwd=d, capture_output=True, text=True)
         if p.returncode != 0:
             return nid, {'_patch': 'NO LONGER APPLIES'}
